@@ -16,6 +16,7 @@ CONSTANTS Kinds,       \* kinds of operations committed through the API: subset 
           MaxStep,     \* step-downs of a controller whose process keeps running
           MaxZombie,   \* publishes by a dispatcher whose server is not the controller any more
           MaxSnap,     \* snapshots
+          MaxForeign,  \* operations of another cluster on the same NATS deployment
           Keeps,       \* set of trailing-log counts a snapshot may keep
           Eager        \* TRUE: environment steps only when no dispatcher can step by itself
                        \*       (the schedule a lock-step driver can reproduce on the real server)
@@ -23,7 +24,7 @@ CONSTANTS Kinds,       \* kinds of operations committed through the API: subset 
 VARIABLES bud, last
 mcvars == <<vars, bud, last>>
 
-B0 == [ops |-> 0, sys |-> 0, fail |-> 0, recfail |-> 0, block |-> 0, take |-> 0, crash |-> 0, snap |-> 0, zombie |-> 0, step |-> 0]
+B0 == [ops |-> 0, sys |-> 0, fail |-> 0, recfail |-> 0, block |-> 0, take |-> 0, crash |-> 0, snap |-> 0, zombie |-> 0, step |-> 0, foreign |-> 0]
 Spend(f) == bud' = [bud EXCEPT ![f] = @ + 1]
 Keep == UNCHANGED bud
 
@@ -37,6 +38,8 @@ CanStep == \E n \in Nodes :
 Waiting == \E n \in Nodes : disp[n].st = "wait"
 Leaderless == ctl = None /\ \E n \in Nodes : up[n]
 EnvOK == Eager => (~CanStep /\ ~Leaderless)
+
+CmdBehindSnap(n) == snap[n] = 0 \/ \E i \in (snap[n] + 1)..Len(rlog) : rlog[i].k # "S"
 
 MCInit == Init /\ bud = B0 /\ last = [a |-> "Init"]
 
@@ -83,12 +86,24 @@ Others ==
   \/ \E n \in Nodes : (Eager => ctl = n) /\ DoBackoff(n) /\ Keep /\ L([a |-> "Backoff", n |-> n])
   \/ bud.block < MaxBlock /\ EnvOK /\ (Eager => ~Waiting) /\ ctl # None /\ up[ctl] /\ DoBlock /\ Spend("block") /\ L([a |-> "Block"])
   \/ EnvOK /\ DoUnblock /\ Keep /\ L([a |-> "Unblock"])
-  \/ \E n \in Nodes : bud.crash < MaxCrash /\ EnvOK /\ DoCrash(n) /\ Spend("crash")
+  \* (eager: a server that has a snapshot is only stopped when a command lies behind the snapshot -
+  \*  a server restarted from a snapshot with nothing but Raft's own entries behind it starts its
+  \*  restored streams, `__activity` among them, only when the next command is applied, and every
+  \*  publish times out until then: a start-up matter of the FSM, not of the activity stream)
+  \/ \E n \in Nodes : bud.crash < MaxCrash /\ EnvOK /\ (Eager => CmdBehindSnap(n)) /\ DoCrash(n) /\ Spend("crash")
                       /\ L([a |-> "Crash", n |-> n, st |-> disp[n].st])
-  \/ \E n \in Nodes : (Eager => ~CanStep) /\ DoStart(n) /\ Keep /\ L([a |-> "Start", n |-> n])
+  \* (snapd / pafter / lpgap: situation of the restart, for the selection of replayed behaviours:
+  \*  a snapshot exists, a "P" entry lies behind it, operations with events above the replicated lastPublished)
+  \/ \E n \in Nodes : (Eager => ~CanStep) /\ DoStart(n) /\ Keep
+                      /\ L([a |-> "Start", n |-> n, snapd |-> snap[n] > 0, pafter |-> LastP(rlog, snap[n]) > 0,
+                            lpgap |-> Cardinality({i \in EligIds(rlog) : i > LP(rlog)})])
+  \* (Eager: a snapshot of a server that is down cannot be driven; pend = operations not yet published)
   \/ \E n \in Nodes, kp \in Keeps :
        /\ bud.snap < MaxSnap /\ EnvOK /\ DoSnapshot(n, kp) /\ Spend("snap")
-       /\ L([a |-> "Snapshot", n |-> n, keep |-> kp])
+       /\ L([a |-> "Snapshot", n |-> n, keep |-> kp, pend |-> Cardinality(Pending),
+             lpgap |-> Cardinality({i \in EligIds(rlog) : i > LP(rlog)})])
+  \/ bud.foreign < MaxForeign /\ EnvOK /\ ctl # None /\ up[ctl] /\ DoForeignPublish /\ Spend("foreign")
+       /\ L([a |-> "ForeignOp"])
   \/ \E n \in Nodes : DoDispatchPanic(n) /\ Keep /\ L([a |-> "DispatchPanic", n |-> n])
 
 MCNext ==
@@ -98,10 +113,8 @@ MCNext ==
 MCSpec == MCInit /\ [][MCNext]_mcvars
 
 -----------------------------------------------------------------------------
-\* The dispatcher of the known snapshot defect starts from an index below the
-\* replicated lastPublished; `tainted` marks everything downstream of it so
-\* that the rest of the space is still checked.
-Tainted == \E n \in Nodes : rs[n] > 0 \/ n \in dead
+\* (before the repair of C18-snapshot-loses-lastpublished a restart from a snapshot
+\*  was exempt from P_Start and C18_IdleMeansPublished: `rs[n] = 0 =>`; not any more)
 
 \* a new dispatcher starts from the replicated lastPublished
 P_Start(n) == disp'[n].base = LP(rlog)
@@ -112,7 +125,8 @@ StepOK ==
   /\ CASE a.a \in {"DispatchPublish", "PublishFail"} ->
             /\ P_Publish(a.n)
             /\ C18_ResumeAbove(disp[a.n].base)
-       [] a.a = "BecomeLeader" -> (rs[a.n] = 0 => P_Start(a.n)) /\ pub' = pub
+       [] a.a = "BecomeLeader" -> P_Start(a.n) /\ pub' = pub
+       [] a.a = "ForeignOp" -> C18_ForeignIsolated
        [] OTHER -> pub' = pub
 StepsOK == [][StepOK]_mcvars
 
